@@ -82,7 +82,7 @@ def body_seq(ch, ctx):
     _, rec, s = ctx.shard
     e = ch.choose("end", range(s, len(RECORDS[rec]) + 1))
     strand = ch.choose("strand", "+-.")
-    use_strand = ch.choose("use_strand", (True, False))
+    use_strand = ch.choose("use_strand", (True, False, 1))          # 1: truthy, not the bool True
     as_path = ch.choose("fasta", ("object", "path", "path_rewritten", "path_stale_index"))
     path, fa = get_fasta(ctx)
     if as_path == "path_rewritten":
@@ -112,7 +112,7 @@ def body_seq(ch, ctx):
     ctx.outcome((rec, strand, use_strand, e - s + 1))
     sig = dict(strand=strand, use_strand=use_strand)
     ctx.check(len(f) == e - s + 1, "len-differs", None, start=s, end=e, got=len(f))
-    got = f.sequence(path if as_path else fa, **({} if use_strand else dict(use_strand=False)))      # strand-aware is the default
+    got = f.sequence(path if as_path else fa, **({} if use_strand is True else dict(use_strand=use_strand)))      # strand-aware is the default
     positional = f.sequence(path if as_path else fa, use_strand)          # the same call, second argument positional
     ctx.check(str(positional) == str(got), "sequence-positional-call-differs", sig, keyword=str(got), positional=str(positional))
     ctx.check(str(got) == exp, "sequence-differs", sig, record=rec, start=s, end=e, got=str(got), expected=exp)
